@@ -141,6 +141,15 @@ def structural():
     start_before = True
     if inst_before and inst_before[0].lineno < st_calls[0].lineno:
         start_before = False
+    # nothing but the known bookkeeping may sit between the start record and the protected region: any other method
+    # call there is work whose failure leaves a dangling pipeline_start (not covered by instantiate_inside_try)
+    for stmt in before:
+        if stmt.lineno <= st_calls[0].lineno:
+            continue
+        for c in ast.walk(stmt):
+            if isinstance(c, ast.Call) and isinstance(c.func, ast.Attribute) and isinstance(c.func.value, ast.Name) \
+                    and c.func.value.id == "self" and c.func.attr not in ("_collect_env_pins", "_instantiate_nodes"):
+                raise TranslationError("execute: self.%s(...) is called between pipeline_start and the protected region" % c.func.attr)
     # node loop and per-node try
     loops = [s for s in outer.body if isinstance(s, ast.For)]
     if len(loops) != 1:
